@@ -19,7 +19,9 @@ EXPLANATION = (
     "a lock L of the class such that the guard evaluation that ends the loop and the change that makes D true for the next starter are in one "
     "`with self.L` region and the start method's test-and-spawn is in `with self.L`; accepted idiom B: the guard does not read G (the monitor "
     "lives until stop()). Anything else is reported with class, thread target and liveness test; C10.2 each submit path registers the job in G "
-    "before calling the start method; C10.3 the monitor's top level routes exceptions to scheduler.reject_job."
+    "before calling the start method; C10.3 the monitor's top level routes exceptions to scheduler.reject_job; "
+    "C10.4 JobArrayer.num_pending, read by the AWS Batch / K8S / GCP Batch monitor loop guards, changes by exactly the number of jobs added to / removed from "
+    "JobArrayer.pending on every path of every method that writes it (symbolic list-size conservation, sa/conserve.py)."
 )
 
 EXECUTORS = ["redun/executors/docker.py", "redun/executors/aws_batch.py", "redun/executors/k8s.py", "redun/executors/gcp_batch.py", "redun/executors/aws_glue.py"]
@@ -162,3 +164,30 @@ def run(ctx):
     if nclasses < 5:
         raise AnalysisError(f"only {nclasses} thread-owning executor classes found (expected >= 5)", "executors")
     ctx.extra["handshake_table"] = table
+
+    # ---- C10.4 -----------------------------------------------------------
+    # a monitor loop guard that reads arrayer.num_pending relies on that counter being exact: if it reads 0 while jobs are still queued in the
+    # arrayer, the monitor exits (and stop() stops the arrayer) with submitted jobs that no thread will ever report
+    r4 = ctx.rule("C10.4", "counters read by monitor loop guards move exactly with the queues they summarise", floor=2)
+    from ..conserve import Conservation, f_eq, f_str
+
+    readers = [row for row in table if "loop_guard" in row and "num_pending" in row["loop_guard"]]
+    if not readers:
+        raise AnalysisError("no monitor loop guard reads arrayer.num_pending any more (anchor vanished)", "executors")
+    jm = repo.mod("redun/job_array.py")
+    jcls = jm.cls("JobArrayer")
+    writers = [st for st in jcls.body if isinstance(st, FuncNode) and st.name != "__init__" and any(
+        isinstance(n, (ast.AugAssign, ast.Assign)) and any(src(t) == "self.num_pending" for t in ([n.target] if isinstance(n, ast.AugAssign) else n.targets)) for n in ast.walk(st))]
+    if not writers:
+        raise AnalysisError("JobArrayer.num_pending has no writer outside __init__", "JobArrayer")
+    for fn in writers:
+        for p in Conservation(fn, "pending", "num_pending", "_submit_jobs").run():
+            where = " -> ".join(p.trace[:6])
+            r4.check(
+                f_eq(p.dq, p.dc),
+                f"{jm.rel}:JobArrayer.{fn.name}:count",
+                f"on the path [{where}] `pending` changes by {f_str(p.dq)} job(s) but num_pending by {f_str(p.dc)}; the monitor loops of "
+                f"{sorted({r['class'] for r in readers})} run `while ... or self.arrayer.num_pending` and exit when it reads 0 with jobs still queued",
+                jm.rel,
+                fn.lineno,
+            )
